@@ -274,7 +274,24 @@ func idCEMI(code uint8, id int) []byte {
 	return mkLData(code, 0xbc, 0xe0, 0x1105, uint16(id), 2, []byte{0, byte(id >> 8), byte(id)}, nil)
 }
 
+// busmonCEMI is a bus monitor indication carrying a telegram id (three times over, so that a
+// value patched together from two telegrams is recognised as neither).
+func busmonCEMI(id int) []byte {
+	h, l := byte(id>>8), byte(id)
+	return []byte{0x2b, 'B', 'M', h, l, h, l, h, l}
+}
+
+func busmonID(body []byte) int {
+	if len(body) != 8 || body[0] != 'B' || body[1] != 'M' || body[2] != body[4] || body[3] != body[5] || body[2] != body[6] || body[3] != body[7] {
+		return -1
+	}
+	return int(body[2])<<8 | int(body[3])
+}
+
 func cemiID(c []byte) int {
+	if len(c) > 0 && c[0] == 0x2b {
+		return busmonID(c[1:])
+	}
 	v := parseLData(c)
 	if !v.OK || len(v.Data) != 3 {
 		return -1
